@@ -1,0 +1,10 @@
+//go:build !verif
+
+package types
+
+import (
+	sdk "github.com/cosmos/cosmos-sdk/types"
+)
+
+// verifTrace is a no-op unless the code is built with the `verif` tag.
+func verifTrace(sdk.Context, int, EpochHooks, string, string, int64) {}
